@@ -101,14 +101,16 @@ Definition cov1_get (arr : list Z) (g : Z) : gres :=
 (* closure of CoverageFormat2::get *)
 Definition range_cmp (g : Z) (r : rrec) : comparison :=
   let '(s, e, _) := r in if e <? g then Lt else if g <? s then Gt else Eq.
-(* CoverageFormat2::get: rec.start_coverage_index() + gid - rec.start_glyph_id()   — u16 arithmetic,
-   evaluated left to right: the ADDITION can exceed u16::MAX.  [strict] = overflow-checks profile
-   (panic); otherwise two wrapping operations. *)
+(* CoverageFormat2::get: rec.start_coverage_index() + (gid - rec.start_glyph_id())   — u16 arithmetic
+   (the subtraction cannot underflow: the search returned Equal, so start <= gid).  [strict] =
+   overflow-checks profile (the addition panics above u16::MAX); otherwise it wraps.
+   (Before /repo commit 7d54c01 the expression was (ci + gid) - start, which panicked on valid tables:
+   finding "cov2-get-u16-add-overflow".) *)
 Definition cov2_get (strict : bool) (rs : list rrec) (g : Z) : gres :=
   match bsearch_by (fun i => range_cmp g (znth rs i (0, 0, 0))) (zlen rs) with
   | BOk i => let '(s, _, ci) := znth rs i (0, 0, 0) in
-             if strict && (65535 <? ci + g) then GPanic
-             else GSome (wrap16 (wrap16 (ci + g) - s))
+             if strict && (65535 <? ci + (g - s)) then GPanic
+             else GSome (wrap16 (ci + (g - s)))
   | BErr _ => GNone
   end.
 Definition cov_get (strict : bool) (c : cov) (g : Z) : gres :=
